@@ -50,6 +50,7 @@ type Engine struct {
 	// per top-level run
 	TopFn      *ssa.Function
 	TopFC      *FuncContract
+	topFrame   *frameSpec
 	Paths      int
 	MaxPaths   int
 	MaxSteps   int
@@ -121,6 +122,7 @@ func (e *Engine) oblige(st *State, name, kind string, where token.Pos, goal *Ter
 	if e.Mode == ModeSpec {
 		return
 	}
+	e.drainFramed(st)
 	g := st.norm(goal)
 	if g.IsTrue() {
 		e.Trivial[name]++
